@@ -379,8 +379,10 @@ class StyleProperties:
     def extract(cls, context: StyleParsingContext, xml_attrib: str):
       lp = StyleProperties.ttml_length_to_model(context, xml_attrib)
 
-      if lp.units != styles.LengthType.Units.c:
-        raise ValueError("ebutts:linePadding must be expressed in 'c'")
+      # the data model (and hence the writer) also allows root-relative units
+
+      if lp.units not in (styles.LengthType.Units.c, styles.LengthType.Units.rh, styles.LengthType.Units.rw):
+        raise ValueError("ebutts:linePadding must be expressed in 'c', 'rh' or 'rw'")
 
       return lp
 
